@@ -3,23 +3,25 @@
 # (uncommitted diff) + /tmp/seedout/<ID>/demo.py, store it under /verif/seeded/<ID>/ and run the quick check(s) on it.
 set -u
 id=$1; shift
-wt=/tmp/seed-$id
-out=/verif/seeded/$id
+r=${ROUND:-}
+wt=/tmp/seed$r-$id
+so=/tmp/seedout$r/$id
+out=/verif/seeded/$id${r:+-$r}
 mkdir -p $out
 git -C $wt diff > $out/patch.diff
 [ -s $out/patch.diff ] || { echo "$id: empty diff"; exit 2; }
-cp /tmp/seedout/$id/demo.py $out/demo.py
-cp /tmp/seedout/$id/notes.md $out/notes.md 2>/dev/null
+cp $so/demo.py $out/demo.py
+cp $so/notes.md $out/notes.md 2>/dev/null
 tests=$(cd $wt && PYTHONPATH=$wt/src /venv/bin/python -m pytest -q -p no:cacheprovider 2>&1 | tail -1)
-PYTHONPATH=$wt/src /venv/bin/python $out/demo.py > /tmp/seedout/$id/demo_with.log 2>&1; with=$?
-PYTHONPATH=/repo/src /venv/bin/python $out/demo.py > /tmp/seedout/$id/demo_without.log 2>&1; without=$?
+PYTHONPATH=$wt/src /venv/bin/python $out/demo.py > $so/demo_with.log 2>&1; with=$?
+PYTHONPATH=/repo/src /venv/bin/python $out/demo.py > $so/demo_without.log 2>&1; without=$?
 echo "$id: repo tests: $tests | demo with change: exit $with | demo on /repo: exit $without"
 res=""
 cd /verif
 for c in $id "$@"; do
-  VERIF_REPO=$wt VERIF_WORK=/tmp/seedwork-$id VERIF_EVIDENCE_DIR=/tmp/seedwork-$id/evidence ./check $c --tier quick > /tmp/seedout/$id/check_$c.log 2>&1
+  VERIF_REPO=$wt VERIF_WORK=/tmp/seedwork-$id VERIF_EVIDENCE_DIR=/tmp/seedwork-$id/evidence ./check $c --tier quick > $so/check_$c.log 2>&1
   rc=$?
-  first=$(grep -m1 -- '->' /tmp/seedout/$id/check_$c.log | cut -c1-220)
+  first=$(grep -m1 -- '->' $so/check_$c.log | cut -c1-220)
   echo "$id: check $c quick: exit $rc $first"
   res="$res $c=$rc"
 done
